@@ -4,4 +4,5 @@ pub mod c05;
 pub mod c06;
 pub mod c14;
 pub mod c15;
+pub mod c16;
 pub mod misc;
